@@ -467,7 +467,13 @@ namespace _ST_PRIVATE
                 *dest++ = badchar_substitute;
             } else {
                 error = write_utf16(dest, bigch);
-                ST_ASSERT(error == conversion_error_t::success, "Input character out of range");
+                if (error != conversion_error_t::success) {
+                    // A 4-byte sequence above U+10FFFF can't be represented in
+                    // UTF-16; utf16_measure() already counted a substitute for it
+                    if (validation == ST::check_validity)
+                        return error;
+                    *dest++ = badchar_substitute;
+                }
             }
         }
 
